@@ -2,6 +2,7 @@
 //! real zlink code on generated inputs and prints one line per case (input + canonical observation).
 mod common;
 mod rx;
+mod ser;
 mod tx;
 
 fn main() {
@@ -24,6 +25,8 @@ fn main() {
     match scenario.as_str() {
         "rx" => rx::main(&o),
         "rx-bounds" => rx::main_bounds(&o),
+        "ser" => ser::main(&o),
+        "ser-f32" => ser::main_f32(&o),
         "tx" => tx::main(&o, false),
         "tx-bounds" => tx::main(&o, true),
         other => {
